@@ -235,7 +235,7 @@ StepRead(m, e) ==
           valid == ~Utf8Checked(m) \/ WellFormed(payload)
           seen == PulledData(F, m.first, IF last <= Len(F) THEN last ELSE Len(F), P)
           hopeless == Utf8Checked(m) /\ (~StreamAlive(seen) \/ (allPulled /\ ~valid))
-          cutHit == AtCut(m, P)
+          cutHit == P >= StreamEnd(m.sc)            \* the reader has reached the end of what the stream holds
       IN
       [m EXCEPT
         !.bad = FirstBad(<<
@@ -250,8 +250,7 @@ StepRead(m, e) ==
            <<allPulled /\ ~valid /\ m.del + e.n = avail => e.err # "nil" /\ e.err # "eof", "invalid UTF-8 text message delivered as complete">>,
            <<e.err \in {"protocol", "too_large"} => hit, "protocol error without an offending frame">>,
            <<HardErr(e) => cutHit, "transport error without a cut">>,
-           <<e.err \in {"nil", "eof", "invalid_utf8", "protocol", "too_large", "unexpected_eof", "transport"}, "unexpected error class">>,
-           <<cutHit /\ ~complete /\ ~hit /\ e.n = 0 /\ e.err = "nil" => P > m.pulled \/ e.cbs # <<>>, "no progress at the cut">> >>),
+           <<e.err \in {"nil", "eof", "invalid_utf8", "protocol", "too_large", "unexpected_eof", "transport"}, "unexpected error class">> >>),
         !.fi = IF hit THEN m.badIdx ELSE fi2, !.pulled = P,
         !.del = m.del + e.n,
         !.inmsg = ~(e.err = "eof"),
@@ -271,7 +270,7 @@ StepDiscard(m, e) ==
               <<hit => e.err # "nil" /\ fi2 = m.badIdx /\ NoPayloadOfOffending(m, P), "Discard went past an offending frame">>,
               <<~hit /\ e.err = "nil" => last <= Len(F) /\ fi2 = last /\ P = F[last].pe,
                 "Discard did not stop exactly at the end of the message">>,
-              <<~hit /\ e.err # "nil" => AtCut(m, P), "Discard failed on a valid stream">>,
+              <<~hit /\ e.err # "nil" => P >= StreamEnd(m.sc), "Discard failed on a valid stream">>,
               <<e.err # "eof", "Discard reported a clean end of stream">> >>),
            !.fi = fi2, !.pulled = P, !.inmsg = FALSE, !.dead = e.err # "nil"]
 
